@@ -42,7 +42,7 @@ PART = {
   "C03": dict(
     imports=["Carquet.Properties.C02.Cursor"],
     obligations=["Carquet.Properties.C02.C03_batch_zero_copy_transparent"],
-    components=["cursor"],
+    components=["cursor", "batlate"],
     fidelity={"Impl.BatchReader": "exact (zero-copy branch, three I/O modes as a parameter)"},
     rule=_RULE,
     assumptions=["same decoded pages in every mode (C03_page_modes_agree is the page-load component's obligation)"],
